@@ -1,3 +1,9 @@
-/-! # C10 — (stub: property theorems go here; see docs/BUILDING.md) -/
+import PtVerif.Model.Lazy
+import PtVerif.Generated.LazyConfig
+/-! # C10 — private tables are isolated (work in progress) -/
 namespace PtVerif.C10
+open PtLazy
+
+theorem nine_inits : PtGen.lazyInitNames.length = 9 := by decide
+
 end PtVerif.C10
